@@ -47,7 +47,7 @@ fn filter(ps: Vec<Program>, pred: impl Fn(&COp) -> bool) -> Vec<Program> {
 }
 
 fn is_update(o: &COp) -> bool {
-    matches!(o, COp::Cancel(_) | COp::Move(_) | COp::Amend(..))
+    matches!(o.canon(), COp::Cancel(_) | COp::Move(_) | COp::Amend(..))
 }
 
 pub fn stages(prop: &str, tier: &str) -> Vec<Stage> {
@@ -66,18 +66,31 @@ pub fn stages(prop: &str, tier: &str) -> Vec<Stage> {
     ];
     let tiny = vec![COp::Match(4), COp::Cancel(1), COp::Amend(1, 2), COp::Add];
     let common = |v: &mut Vec<Stage>| {
-        let books6 = [Book::B1, Book::B2, Book::B3, Book::B4, Book::B5, Book::B6, Book::B7];
+        // operations that make sense on the 70-order book
+        let big = vec![COp::Match(1000), COp::Match(20), COp::Cancel(100), COp::Cancel(169), COp::Add, COp::Read];
+        let books6 = [Book::B1, Book::B2, Book::B3, Book::B4, Book::B5, Book::B6, Book::B7, Book::B8];
         let mut wide = alpha.clone();
-        wide.extend([COp::AddIce, COp::Amend(1, 0), COp::Move(2), COp::Match(1000)]);
+        wide.extend([
+            COp::AddIce,
+            COp::Amend(1, 0),
+            COp::Move(2),
+            COp::Match(1000),
+            COp::MoveVia(1, 1),
+            COp::MoveVia(2, 1),
+            COp::AmendVia(1, 1, 2),
+            COp::AmendVia(2, 1, 8),
+        ]);
         if quick {
-            v.push(stage("pairs of 1-op threads, wide alphabet, seven books", programs_1op(2, &books6, &wide), Some(3)));
+            v.push(stage("pairs of 1-op threads, wide alphabet, eight books", programs_1op(2, &books6, &wide), Some(3)));
             v.push(stage("triples of 1-op threads, books B1-B5", programs_1op(3, &books5, &alpha), Some(2)));
             v.push(stage("pairs of 2-op threads, reduced alphabet, B1-B4", programs_2x2(&BOOKS4, &small), Some(2)));
+            v.push(stage("pairs of 1-op threads on a 70-order book", programs_1op(2, &[Book::B9], &big), Some(1)));
         } else {
+            v.push(stage("pairs and triples of 1-op threads on a 70-order book", { let mut p = programs_1op(2, &[Book::B9], &big); p.extend(programs_1op(3, &[Book::B9], &big)); p }, Some(2)));
             // a wider alphabet for the unbounded two-thread programs: iceberg adds, amend to zero display
             // (an order that can give nothing), a second price move
-            v.push(stage("pairs of 1-op threads, wide alphabet, seven books, unbounded", programs_1op(2, &books6, &wide), None));
-            v.push(stage("triples of 1-op threads, seven books", programs_1op(3, &books6, &alpha), Some(3)));
+            v.push(stage("pairs of 1-op threads, wide alphabet, eight books, unbounded", programs_1op(2, &books6, &wide), None));
+            v.push(stage("triples of 1-op threads, eight books", programs_1op(3, &books6, &alpha), Some(3)));
             v.push(stage("triples of 1-op threads, reduced alphabet, B1-B4, bound 4", programs_1op(3, &BOOKS4, &small), Some(4)));
             v.push(stage("pairs of 2-op threads, full alphabet, B1-B4", programs_2x2(&BOOKS4, &alpha), Some(3)));
             v.push(stage("quadruples of 1-op threads, reduced alphabet, B1-B4", programs_1op(4, &BOOKS4, &small), Some(2)));
@@ -756,6 +769,8 @@ impl ProgramDe {
             "B4" => Book::B4,
             "B6" => Book::B6,
             "B7" => Book::B7,
+            "B8" => Book::B8,
+            "B9" => Book::B9,
             _ => Book::B5,
         };
         let op = |v: &Value| -> COp {
@@ -775,6 +790,21 @@ impl ProgramDe {
                 }
                 if let Some(x) = o.get("Move") {
                     return COp::Move(x.as_u64().unwrap_or(0));
+                }
+                if let Some(x) = o.get("MoveVia") {
+                    let a = x.as_array().cloned().unwrap_or_default();
+                    return COp::MoveVia(
+                        a.first().and_then(|v| v.as_u64()).unwrap_or(1) as u8,
+                        a.get(1).and_then(|v| v.as_u64()).unwrap_or(0),
+                    );
+                }
+                if let Some(x) = o.get("AmendVia") {
+                    let a = x.as_array().cloned().unwrap_or_default();
+                    return COp::AmendVia(
+                        a.first().and_then(|v| v.as_u64()).unwrap_or(1) as u8,
+                        a.get(1).and_then(|v| v.as_u64()).unwrap_or(0),
+                        a.get(2).and_then(|v| v.as_u64()).unwrap_or(0),
+                    );
                 }
                 if let Some(x) = o.get("Amend") {
                     let a = x.as_array().cloned().unwrap_or_default();
